@@ -41,6 +41,8 @@ def joins(ctx, kind, jobs, cls):
         for fl in r.fails:
             lines = lines or core.read_lines(f)
             i = fl["line"] - 1
+            if fl["clause"].startswith("J6_vertices") and lines[i].startswith('{"e":"JCase"') and i > 0:
+                i -= 1                      # reported when the NEXT call begins: it belongs to the call before
             while i > 0 and not lines[i].startswith('{"e":"JCase"'):
                 i -= 1
             c = json.loads(lines[i])["case"]; div.append({"clause": fl["clause"], "detail": fl["detail"], "case": c, "join": json.loads(lines[fl["line"] - 1])})
